@@ -38,10 +38,12 @@ CLAIMED = {
              "xattrs, DATA for unrequested ids, early FIN) x four prior destinations containing symlinks that point outside is sent by a scripted "
              "sender to the real Receive inside a chroot jail; TLC checks on the recorded execution that the identity snapshot of everything outside "
              "dest is unchanged, that a stream which ValidStream (or the hard-link / unrequested-data rule) rejects makes Receive fail, and that no "
-             "entry at or after the first offending element was applied.",
+             "entry at or after the first offending element was applied. Receive options are part of the space since round 6: the cases of the "
+             "algorithm-layer model spec/ReceiveLinksMC.tla (metadata-only selector / Filter x kept entries x merge x prior destination, 102 cases "
+             "written by TLC) are run on the real Receive and outcome and containment are compared with the model's prediction.",
         design_ref="DESIGN.md section 6 C03",
         note=_SYNC_NOTE + " Kernel symlink-following behaviour per syscall is trusted; the jail is a chroot of the same filesystem.",
-        technique="TLA+ property layer (ValidStream + containment clauses in SyncTrace) + TLC trace validation of real Receive against a hostile scripted sender in a chroot jail"),
+        technique="TLA+ property layer (ValidStream + containment clauses in SyncTrace) + TLC trace validation of real Receive against a hostile scripted sender in a chroot jail; TLC model checking of ReceiveLinksMC with its TLC-generated cases replayed into the real code"),
     "C04": dict(
         text="Fault enumeration on the real code judged by TLC: a fault-free run of each scenario (5-file tree into empty and dirty destinations, "
              "300-file fan-out with a slow DATA path so that >132 requests stay outstanding) counts the operations of every kind; then every "
@@ -72,7 +74,8 @@ CLAIMED = {
              "non-file ids, leaving without FIN, hard-link member ids), stream capacities 0..64, delays and a post-enqueue gate; TLC "
              "validates every packet of the log against the SENDER ROLE automaton of spec/SyncTrace.tla (STAT order and end marker, DATA only "
              "for requested unfinished ids with the right bytes at the running offset, one terminator at end of file, FIN only as echo, "
-             "success only after the echo, invalid ids fail the call, valid sessions succeed, progress monotone with one final call).",
+             "success only after the echo, invalid ids fail the call, valid sessions succeed, progress monotone with one final call). The stream "
+             "endpoints decode into the caller's message without clearing it (spec/DecodeIntoMC.tla model-checks both packet loops against that contract).",
         design_ref="DESIGN.md section 6 C06",
         note=_SYNC_NOTE,
         technique="TLA+ role automaton (SyncTrace: sender role over a FIFO pipe model) + TLC trace validation of real Send against a reference receiver"),
@@ -155,7 +158,8 @@ CLAIMED = {
         text="copy.Copy of whole trees with include/exclude lists (systematic single patterns and [X, !Y] pairs on a fixed tree plus seeded random "
              "lists) into empty and populated destinations; TLC checks the three-way equality written paths = naive reference filter (FilterRef over "
              "library hit matrices) = paths of fsutil.Walk with the same patterns, that no other directory is created, and that ancestors created "
-             "on demand carry the source directory's mode, owner and xattrs; the incremental-matcher explanation test separates the known finding.",
+             "on demand carry the source directory's mode, owner and xattrs; the incremental-matcher explanation test separates the known finding. "
+             "spec/CopyFilterMC.tla model-checks copy.go's decision with deferred parents against the reference and against the filtered-walk algorithm for every list in scope.",
         design_ref="DESIGN.md section 6 C16",
         note="Trusted: TLC; the harness snapshotter; ext4 as root; chroot of the same filesystem as jail; kernel symlink-following per syscall; bounded universes and seeded random trees. moby/patternmatcher is trusted for single-pattern verdicts.",
         technique="TLA+ reference filter (FilterRef) + TLC trace validation of real filtered copies against reference and filtered walk"),
@@ -164,7 +168,8 @@ CLAIMED = {
              "bytes, non-ASCII, devices, fifos, xattrs); the archive is parsed with archive/tar and with a strict 512-byte block walk and "
              "extracted with GNU tar; TLC checks against spec/TarRef.tla: one member per view entry in walk order, trailing slash on directories, "
              "exact size and bytes for regular files, no payload and zero size field for symlinks and hard links, type flags, device numbers, "
-             "mode, uid/gid, mtime to the second, SCHILY.xattr records, clean end of archive, and that the extracted tree equals the view.",
+             "mode, uid/gid, mtime to the second, SCHILY.xattr records, clean end of archive, and that the extracted tree equals the view. Views "
+             "assembled by SubDirFS over mount names that are string prefixes of one another are included (spec/MountRouteMC.tla model-checks Walk / Open agreement for them).",
         design_ref="DESIGN.md section 6 C17",
         note="Trusted: TLC; archive/tar as reader; GNU tar 1.34 as extractor; the harness's block walker and snapshotter.",
         technique="TLA+ member/extraction predicates (TarRef) + TLC trace validation of real WriteTar output parsed two ways and extracted"),
